@@ -1006,3 +1006,40 @@ CONTRACTS[U + 'z2rank'] = dict(
         'if4.then.end': [('lemma', 'rank_rowadd', [_R3, 'mat', 'nr', 'nc', 'j', 'r'])],
     },
 )
+
+# ------------------------------------------------------------------ boolean-mask indexing (numpy semantics, assumed)
+LEMMAS['mask_index'] = dict(
+    axiom='encoding of numpy boolean-mask indexing a[:, m]: the selected positions in increasing order (MaskIdx), their number '
+          '(MaskCnt) and the inverse position map (MaskPos); abstract for the solver, evaluated natively on generated masks in every run',
+    params=[('m', 'int1'), ('n', 'int')],
+    requires=['n >= 0'],
+    ensures=['0 <= MaskCnt(m, n) <= n',
+             'forall(k, 0, MaskCnt(m, n), 0 <= MaskIdx(m, n)[k] < n and m[MaskIdx(m, n)[k]] != 0 and MaskPos(m, n)[MaskIdx(m, n)[k]] == k)',
+             'forall(k, 0, MaskCnt(m, n), forall(k2, k + 1, MaskCnt(m, n), MaskIdx(m, n)[k] < MaskIdx(m, n)[k2]))',
+             'forall(c, 0, n, implies(m[c] != 0, 0 <= MaskPos(m, n)[c] < MaskCnt(m, n) and MaskIdx(m, n)[MaskPos(m, n)[c]] == c))'],
+)
+
+LEMMAS['inq_exists'] = dict(
+    doc='InQ is the characteristic function of the listed positions',
+    params=[('q', 'int1'), ('n', 'int'), ('c', 'int')],
+    requires=[],
+    ensures=['0 <= InQ(q, n, c) <= 1', 'implies(InQ(q, n, c) == 1, exists(k, 0, n, q[k] == c))'],
+    induction='n',
+)
+LEMMAS['inq_member'] = dict(
+    doc='every listed position is a member',
+    params=[('q', 'int1'), ('n', 'int'), ('k', 'int')],
+    requires=['0 <= k < n'],
+    ensures=['InQ(q, n, q[k]) == 1'],
+    induction='n',
+)
+CONTRACTS[U + 'mask'] = dict(
+    params=[('qubits', 'int1'), ('N', 'int')],
+    # qubits: the tuple of qubit indices of a gate, as an integer sequence
+    requires=['len(qubits) >= 1', 'forall(k, 0, len(qubits), 0 <= qubits[k] < N)'],
+    ensures=['len(result) == N', 'forall(c, 0, N, result[c] == InQ(qubits, len(qubits), c))'],
+    result_term='QMask(qubits, len(qubits), N)',
+    modifies=[], returns='bool1 fresh',
+    hints={'return': [('forall_lemma', [('c', '0', 'N')], 'inq_exists', ['qubits', 'len(qubits)', 'c']),
+                      ('forall_lemma', [('k', '0', 'len(qubits)')], 'inq_member', ['qubits', 'len(qubits)', 'k'], {'trigger': 'qubits[k]'})]},
+)
